@@ -12,10 +12,21 @@ theorem next_false_stable (s : St) (tr : List Ev) (s' : St) (h : s.iterDone = tr
     s'.iterDone = true ∧ Ev.nextRow ∉ tr ∧ Ev.nextBatch ∉ tr :=
   next_false_stable_aux s tr s' h hr
 
+/-- non-vacuity: the premises of `next_false_stable` hold for a cursor that drained a delivered batch, saw the closed channel (iteration ended) and is then called again, closed and canceled -/
+example : ∃ s s', run {} [.deliver 2, .workersDone, .nextEnter, .nextBatch, .nextEnter, .nextRow, .nextEnter, .nextFalseClean] = some s ∧
+    s.iterDone = true ∧ run s [.nextEnter, .nextFalseDone, .close, .cancelCaller, .nextEnter, .nextFalseDone] = some s' ∧
+    s'.iterDone = true ∧ s'.nextFalse = 3 :=
+  ⟨_, _, rfl, rfl, rfl, rfl, rfl⟩
+
 /-- Close (and anything else) does not change an already-decided terminal state. -/
 theorem finalized_immutable (s : St) (tr : List Ev) (s' : St) (h : s.finalized = true) (hr : run s tr = some s') :
     s'.finalized = true ∧ s'.err = s.err :=
   finalized_immutable_aux s tr s' h hr
+
+/-- non-vacuity: the premises of `finalized_immutable` hold for a cursor closed after two recorded failures; a later cancel, terminating Next and second Close leave `failures 2` in place -/
+example : ∃ s s', run {} [.record, .deliver 1, .record, .workersDone, .close] = some s ∧ s.finalized = true ∧
+    run s [.cancelCaller, .nextEnter, .nextFalseTerm, .close] = some s' ∧ s.err = .failures 2 ∧ s'.err = .failures 2 :=
+  ⟨_, _, rfl, rfl, rfl, rfl, rfl⟩
 
 /-- **Err is correct** at the step that decides it, from any reachable state: nil only if nothing
     failed; the context error if the Query context was canceled when Close / the terminating Next ran;
@@ -29,9 +40,31 @@ theorem C20_err_correct (s s' : St) (e : Ev) (hr : Reachable s) (hf : s.finalize
     s'.workersDone = true :=
   err_correct_step_aux s s' e (inv_reachable_aux s hr) hf hs hf'
 
+/-- non-vacuity: the premises of `C20_err_correct` hold for Close on a reachable, undecided state (a batch delivered, a failure recorded, the caller canceled, the pipeline exited); the decided error is the context error -/
+example : ∃ s s' e, Reachable s ∧ s.finalized = false ∧ step s e = some s' ∧ s'.finalized = true ∧
+    e = .close ∧ s.callerCanceled = true ∧ s.recorded = 1 ∧ s'.err = .canceled :=
+  ⟨_, _, .close, ⟨[.deliver 3, .record, .cancelCaller, .workersDone], rfl⟩, rfl, rfl, rfl, rfl, rfl, rfl, rfl⟩
+
+/-- non-vacuity: the premises of `C20_err_correct` also hold for an uncancelled terminating Next (clean end of a run with two recorded failures); the decided error joins both failures -/
+example : ∃ s s', Reachable s ∧ s.finalized = false ∧ step s .nextFalseClean = some s' ∧ s'.finalized = true ∧
+    s.callerCanceled = false ∧ s'.err = .failures 2 :=
+  ⟨_, _, ⟨[.record, .deliver 2, .record, .workersDone, .nextEnter, .nextBatch, .nextEnter, .nextRow, .nextEnter], rfl⟩, rfl, rfl, rfl, rfl, rfl⟩
+
+/-- non-vacuity of the model itself: `nextRow` is live - a batch of three rows is handed out by one
+    `nextBatch` (its first row) and two `nextRow`s, and only then may Next observe the end. -/
+example : ∃ s, run {} [.deliver 3, .workersDone, .nextEnter, .nextBatch, .nextEnter, .nextRow, .nextEnter, .nextRow,
+      .nextEnter, .nextFalseClean] = some s ∧ s.err = .clean ∧ s.nextFalse = 1 ∧
+    run {} [.deliver 3, .workersDone, .nextEnter, .nextBatch, .nextEnter, .nextFalseClean] = none :=
+  ⟨_, rfl, rfl, rfl, rfl⟩
+
 theorem close_idempotent (s s' s'' : St) (h1 : step s .close = some s') (h2 : step s' .close = some s'') :
     s''.err = s'.err ∧ s''.finalized = s'.finalized ∧ s''.iterDone = s'.iterDone :=
   close_idempotent_aux s s' s'' h1 h2
+
+/-- non-vacuity: the premises of `close_idempotent` hold for two Close calls on a state reached by a delivery, a recorded failure and the pipeline's exit -/
+example : ∃ s s' s'', run {} [.deliver 2, .record, .workersDone] = some s ∧ step s .close = some s' ∧
+    step s' .close = some s'' ∧ s'.err = .failures 1 ∧ s''.closeCalls = 2 :=
+  ⟨_, _, _, rfl, rfl, rfl, rfl, rfl⟩
 
 /-- Non-vacuity: cancel, then Close, then Next: the terminal state is the context error. -/
 example : ∃ s, run {} [.deliver 3, .cancelCaller, .workersDone, .close, .nextEnter, .nextFalseTerm] = some s ∧ s.err = .canceled ∧ s.iterDone = true := by
